@@ -22,7 +22,7 @@ pub enum Frag {
     Leaf(u16, usize),
 }
 
-const EVIDENCE: usize = 6;
+const EVIDENCE: usize = 9;
 
 /// Environment leaves: code fragments that use the same leaf must still not influence each other's slots.
 const LEAVES: [u8; 17] = [
@@ -95,6 +95,19 @@ fn evidence(i: usize, s: U) -> Vec<Vec<Tok>> {
             a.extend(ret());
             vec![a]
         }
+        6 => {
+            // legacy `throw`: the path is aborted by a jump to a constant invalid target while a loaded value is still on
+            // the stack (only permissive mode gets past the error)
+            vec![vec![o(op::TIMESTAMP), pu(s), o(op::SSTORE), pu(s), o(op::SLOAD), p(2), o(op::JUMP)]]
+        }
+        7 => {
+            // an internal setter: stores the word it finds on the stack (behind the dispatcher: the selector word)
+            vec![vec![KEEP_SELECTOR, pu(s), o(op::SSTORE), o(op::STOP)]]
+        }
+        8 => {
+            // an address is loaded and the path then runs into INVALID with the value still on the stack
+            vec![vec![pu(s), o(op::SLOAD), pu(addr_mask()), o(op::AND), o(op::DUP1), o(op::BALANCE), o(0xfe)]]
+        }
         _ => {
             // timestamp stored, selector-sized field read from the same slot
             let a = vec![o(op::TIMESTAMP), pu(s), o(op::SSTORE), o(op::STOP)];
@@ -153,8 +166,8 @@ pub fn family(tier: Tier) -> Vec<Frag> {
     v
 }
 
-fn entries(code: &[u8]) -> Option<BTreeSet<(U, String)>> {
-    let o = analyze(code, sle::vm::Config::default(), &Vec::new(), lazy());
+fn entries(code: &[u8], permissive: bool) -> Option<BTreeSet<(U, String)>> {
+    let o = analyze(code, sle::vm::Config::default().with_permissive_errors(permissive), &Vec::new(), lazy());
     if o.class != Class::Ok {
         return None;
     }
@@ -184,11 +197,28 @@ fn show(e: &BTreeSet<(U, String)>) -> String {
 }
 
 pub fn check_pair(a: &Frag, sa: U, b: &Frag, sb: U, d: Dispatcher) -> Result<Option<usize>, Verdict> {
+    let mut best = None;
+    for permissive in [false, true] {
+        match check_pair_mode(a, sa, b, sb, d, permissive) {
+            Ok(Some(n)) => best = Some(best.unwrap_or(0usize).max(n)),
+            Ok(None) => {}
+            Err(v) => {
+                return Err(Verdict {
+                    key: if permissive { format!("{}:permissive", v.key) } else { v.key },
+                    what: if permissive { format!("{} (permissive error mode)", v.what) } else { v.what },
+                })
+            }
+        }
+    }
+    Ok(best)
+}
+
+fn check_pair_mode(a: &Frag, sa: U, b: &Frag, sb: U, d: Dispatcher, permissive: bool) -> Result<Option<usize>, Verdict> {
     let ba = a.branches(sa);
     let bb = b.branches(sb);
     let mut both = ba.clone();
     both.extend(bb.clone());
-    let (Some(ea), Some(eb), Some(eab)) = (entries(&program(&ba, d)), entries(&program(&bb, d)), entries(&program(&both, d))) else {
+    let (Some(ea), Some(eb), Some(eab)) = (entries(&program(&ba, d), permissive), entries(&program(&bb, d), permissive), entries(&program(&both, d), permissive)) else {
         return Ok(None);
     };
     let union: BTreeSet<(U, String)> = ea.union(&eb).cloned().collect();
@@ -231,7 +261,7 @@ pub fn check_renumber(a: &Frag, b: &Frag, from: (U, U), to: (U, U), d: Dispatche
         br.extend(b.branches(s.1));
         program(&br, d)
     };
-    let (Some(e1), Some(e2)) = (entries(&build(from)), entries(&build(to))) else {
+    let (Some(e1), Some(e2)) = (entries(&build(from), false), entries(&build(to), false)) else {
         return Ok(None);
     };
     let rho = |i: U| {
@@ -329,8 +359,9 @@ impl Check for C11 {
         let n = family(tier).len();
         let rule = format!(
             "fragment family of {n} single-variable code fragments with an abstract slot (7 representative idiom kinds x 3 access modes \
-             x {} spellings{}, 4 uses (raw store, one-byte mask, signed compare, account address) of each of 17 environment opcodes and of 3 shared constants, 6 hand-written multi-evidence fragments: address use + zero test, caller stored + signed compare, counter, \
-             one-byte flag, length / call target, timestamp + selector-sized field). ALL ordered pairs (A, B) x 3 dispatcher shapes \
+             x {} spellings{}, 4 uses (raw store, one-byte mask, signed compare, account address) of each of 17 environment opcodes and of 3 shared constants, 9 hand-written multi-evidence fragments: address use + zero test, caller stored + signed compare, counter, \
+             one-byte flag, length / call target, timestamp + selector-sized field, a path aborted by a jump to an invalid constant target or by INVALID with a \
+             loaded value still on the stack, an internal setter that stores the word it finds on the stack), each composition in strict and in permissive error mode. ALL ordered pairs (A, B) x 3 dispatcher shapes \
              (selector compare, reversed layout, two chained conditional jumps) x 2 slot assignments: layout(D(A,B)) must equal \
              layout(D(A)) u layout(D(B)) as entry sets. Renumbering: two-fragment programs x all 30 injective maps of their slots \
              into {{0, 1, 2, 77, 2^128+5, 2^255}} (changes PUSH widths, so programs are re-assembled): layout(rho(P)) = rho(layout(P)). \
